@@ -13,7 +13,7 @@ the invariants are evaluated at once - a clean refusal passes, a half-applied op
 Replay file = the operation list; minimisation = delta debugging on that list.
 """
 from __future__ import print_function
-import os, sys, random, io, contextlib, collections, json
+import os, sys, random, math, io, contextlib, collections, json
 sys.path.insert(0, os.path.dirname(os.path.dirname(os.path.abspath(__file__))))
 import numpy as np
 from common import runner, enginea
@@ -92,7 +92,7 @@ class Machine(object):
                     if np.ndim(v) != 1 or len(v) != nrows:
                         return self.V("not-rectangular", "%s: %s view of column '%s' has shape %s, nrows is %d" %
                                       (who, vn, t, np.shape(v), nrows))
-                    if not np.array_equal(np.asarray(v, float), np.array(want, float)):
+                    if not np.array_equal(np.asarray(v, float), np.array(want, float), equal_nan=True):
                         return self.V("wrong-values", "%s: %s view of column '%s' is %s, model %s" %
                                       (who, vn, t, np.asarray(v).tolist()[:8], want[:8]))
             # copies share no storage with any other object
@@ -233,7 +233,7 @@ class Machine(object):
                     values = op["values"]
                     col = model[t]
                     if tol <= 0:
-                        hit = [int(v) in [int(x) for x in values] for v in col]
+                        hit = [(math.isfinite(v) and int(v) in [int(x) for x in values]) for v in col]   # nan / inf match nothing
                         usevals = [int(x) for x in values]
                     else:
                         hit = [any(abs(v - x) < tol for x in values) for v in col]
@@ -246,8 +246,8 @@ class Machine(object):
                         return None
                     t = pick_title(op["col"])
                     order = np.argsort(np.array(model[t], float))
-                    # only unambiguous sorts: distinct keys
-                    if len(set(model[t])) != len(model[t]):
+                    # only unambiguous sorts: distinct, finite keys
+                    if len(set(model[t])) != len(model[t]) or not all(math.isfinite(x) for x in model[t]):
                         return None
                     cf.sortby(t)
                     for t2 in new_model:
@@ -281,7 +281,7 @@ class Machine(object):
                     if not titles:
                         return None
                     big = cf.bigarray
-                    if np.shape(big) != (len(titles), nrows) or not np.array_equal(np.asarray(big, float), np.array([model[t] for t in titles], float).reshape(len(titles), nrows)):
+                    if np.shape(big) != (len(titles), nrows) or not np.array_equal(np.asarray(big, float), np.array([model[t] for t in titles], float).reshape(len(titles), nrows), equal_nan=True):
                         return self.V("bigarray-wrong", "bigarray %s differs from the columns %s" % (np.shape(big), (len(titles), nrows)))
                 elif name == "set_bigarray":
                     if not titles:
@@ -395,6 +395,18 @@ class Machine(object):
                             if len(bad.getcolumn(t2)) != bad.nrows or len(getattr(bad, t2)) != bad.nrows:
                                 return self.V("not-rectangular", "an HDF5 group with datasets of unequal length was loaded without complaint: "
                                                                  "column '%s' has %d entries, nrows is %d" % (t2, len(bad.getcolumn(t2)), bad.nrows))
+                elif name == "set_nonfinite":
+                    # a float column gets not-a-number / infinite entries (failed fits, divisions by zero), written in place
+                    if not titles or nrows == 0:
+                        return None
+                    t = pick_title(op["col"])
+                    colv = cf.getcolumn(t)
+                    if not isinstance(colv, np.ndarray) or colv.dtype != np.float64 or id(cf) in self.aliased:
+                        return None
+                    for q, val in zip(op["rows"], op["what"]):
+                        x = {"nan": float("nan"), "inf": float("inf"), "-inf": float("-inf")}[val]
+                        colv[q % nrows] = x
+                        new_model[t][q % nrows] = x
                 elif name == "keys":
                     if list(cf.keys()) != titles:
                         return self.V("titles", "keys() %s vs %s" % (cf.keys(), titles))
@@ -420,7 +432,7 @@ def gen_ops(rnd, nops):
                ("setattr_array", 3), ("setitem_scalar", 2), ("setattr_scalar", 3), ("addcolumn_from_existing", 2),
                ("write_attr", 3), ("write_item", 2), ("write_getcolumn", 2), ("filter", 4), ("removerows", 3), ("sortby", 3),
                ("reorder", 3), ("copy", 2), ("copyrows", 3), ("get_bigarray", 4), ("set_bigarray", 2), ("keys", 1),
-               ("invalid_addcolumn", 2), ("invalid_filter", 1), ("invalid_setattr", 1), ("invalid_set_bigarray", 1), ("invalid_reorder", 1), ("reread", 2), ("load_malformed", 1)]
+               ("invalid_addcolumn", 2), ("invalid_filter", 1), ("invalid_setattr", 1), ("invalid_set_bigarray", 1), ("invalid_reorder", 1), ("reread", 2), ("load_malformed", 1), ("set_nonfinite", 2)]
     names = [n for n, w in weights for _ in range(w)]
     for _ in range(nops):
         n = rnd.choice(names)
@@ -432,6 +444,9 @@ def gen_ops(rnd, nops):
             op["how"] = rnd.choice(["long", "long", "ragged", "str", "set", "dict"])
         if n == "load_malformed":
             op["pseed"] = rnd.getrandbits(32)
+        if n == "set_nonfinite":
+            op["rows"] = [rnd.randint(0, 40) for _ in range(rnd.randint(1, 2))]
+            op["what"] = [rnd.choice(["nan", "nan", "inf", "-inf"]) for _ in op["rows"]]
         if n == "reread":
             op["pseed"] = rnd.getrandbits(32)
             op["how"] = rnd.choice(["hdf", "hdf", "text"])
